@@ -12,3 +12,15 @@ package executor
 //   (the task table holds tasks built by executable.NewTask: never a nil pointer wrapped in the interface)
 //@   requires activeTask is *executable.HookTask ==> activeTask.(*executable.HookTask) != nil
 //@   on call (*executable.HookTask).Trigger : assert arg0 != nil
+
+// C17 (one terminal status per task - and the executor outlives a KILL it cannot use): a KILL for a task that is not,
+// or no longer, among the active tasks (a duplicate KILL, a KILL that crosses the task's own terminal status, a KILL
+// after a failed launch) is ignored. Returning an error from the handler ends the executor's event loop, and with it
+// every other task this executor runs.
+//@ func handleKillEvent(state *internalState, e *executor.Event_Kill) (err error)
+//@   property C17
+//@   ghostvar looked bool = false
+//@   ghostvar known bool = false
+//@   on lookup executor.internalState.activeTasks : looked = true ; known = result1
+//@   ensures looked && !known ==> err == nil
+
